@@ -125,6 +125,7 @@ class Record:
         self.key = tuple(row[c] for c in key_cols)
         self.obj = obj
         self.pseud = pseud
+        self.group: int | None = None      # index of the compound call this record belongs to, if any
 
 
 def materialise(case: dict) -> tuple[list[dict], list[Record | None], list[int]]:
@@ -198,6 +199,35 @@ def materialise(case: dict) -> tuple[list[dict], list[Record | None], list[int]]
             h = hashlib.sha1(blob).digest()
             ops.append({"op": "blob", "hash": h.hex(), "blob": blob.hex(), "sk": BONEH_SK_HEX, "fmt": ID_FORMAT})
             records.append(Record(WALLET_TABLE, (h, blob, sk.serialize(), ID_FORMAT.encode()), (0,)))
+        elif kind == "cred":
+            # one credential through the manager API: PseudonymManager.add_credential(token, metadata, attestations)
+            # writes up to 2 + n rows with a commit each; one call = one acknowledgement for all of them
+            _, t, with_content, m, auths = op
+            pseud, tok, content = tokens[t]
+            pk = _pub_bin(pseud)
+            chash = hashlib.sha3_256(content).digest()
+            stored = content if with_content else None
+            _, md = meta(m, 0)
+            if case["metas"][m][0] != t:
+                raise HarnessError(f"cred op: metadata {m} does not belong to token {t}")
+            sub = [Record("Tokens", (pk, tok.previous_token_hash, tok.signature, chash, stored), (0, 1, 3), (tok, stored), pseud),
+                   Record("Metadata", (pk, md.token_pointer, md.signature, md.serialized_json_dict), (0, 1), md, pseud)]
+            atts = []
+            for a in auths:
+                auth = _pub_bin(AUTH_BASE + a)
+                att = Attestation(md.get_hash(), private_key=keypool.key(AUTH_BASE + a))
+                atts.append({"auth": auth.hex(), "mp": att.metadata_pointer.hex(), "sig": att.signature.hex()})
+                sub.append(Record("Attestations", (pk, auth, att.metadata_pointer, att.signature), (0, 1, 2), att, pseud))
+            first = len(ops)
+            ops.append({"op": "cred", "pk": pk.hex(), "prev": tok.previous_token_hash.hex(), "sig": tok.signature.hex(),
+                        "chash": chash.hex(), "content": None if stored is None else stored.hex(),
+                        "tp": md.token_pointer.hex(), "msig": md.signature.hex(), "json": md.serialized_json_dict.hex(),
+                        "atts": atts, "span": len(sub)})
+            ops.extend({"op": "nop"} for _ in sub[1:])
+            for r in sub:
+                r.group = first
+            records.extend(sub)
+            pseuds.add(pseud)
         elif kind == "reopen":
             ops.append({"op": "reopen", "db": op[1]})
             records.append(None)
@@ -301,7 +331,9 @@ def judge(case: dict, d: str, rc: int, log: list[dict], records: list[Record | N
         raise HarnessError(f"acknowledgement log has a gap: {sorted(settled)}")
     if rc == 0 and in_progress != len(records):
         raise HarnessError("child ended cleanly without settling every op")
-    started = [r for i, r in enumerate(records) if r is not None and i <= in_progress]
+    # (the rows of a compound call - one credential through the manager - all count as started once the call has begun)
+    started = [r for i, r in enumerate(records) if r is not None and (i <= in_progress or
+                                                                      (r.group is not None and r.group <= in_progress))]
     must = [r for i, r in enumerate(records) if r is not None and i in acked]
     where = next((f"{r['mode']} point: {r['phase']} #{r['event']} {r['name']} (op {r['op']})"
                   for r in log if r["t"] == "kill"), "clean exit")
@@ -582,6 +614,11 @@ SCRIPTS: list[tuple[str, dict]] = [
     ("content-then-bare", _script(tokens=[(0, -1, 24), (0, 0, 8)], metas=[(0, 2), (1, 2)],
                                   ops=[("token", 0, 1), ("meta", 0, 0), ("token", 0, 0), ("token", 1, 1), ("meta", 1, 0),
                                        ("token", 0, 0), ("att", 0, 0)])),
+    # credentials stored through the manager API (one call writes token, metadata and attestations, each with its own
+    # commit): at whatever statement the process dies, the rebuilt pseudonym has no credential without its token
+    ("credentials-through-manager", _script(tokens=[(0, -1, 12), (0, 0, 12), (1, -1, 12)], metas=[(0, 3), (1, 3), (2, 3)],
+                                            ops=[("cred", 0, 1, 0, [0]), ("cred", 1, 0, 1, [0, 1]), ("cred", 2, 1, 2, []),
+                                                 ("att", 0, 1)])),
     ("redelivered-metadata", _script(tokens=[(0, -1, 8), (0, 0, 8)], metas=[(0, 2), (1, 2)],
                                      ops=[("token", 0, 1), ("meta", 0, 0), ("token", 1, 1), ("meta", 0, 0),
                                           ("meta", 1, 0), ("att", 0, 0)])),
@@ -684,6 +721,11 @@ def build(raw: dict) -> dict:
                 cands += [["att", m]] * (1 if ("att", m) in placed else 3)
         for b in range(len(blobs)):
             cands += [["blob", b]] * (1 if ("blob", b) in placed else 3)
+        if not in_batch:
+            for m, (tok, _) in enumerate(metas):
+                parent = tokens[tok][1]
+                if tok not in placed_tok and (parent < 0 or parent in placed_tok):
+                    cands += [["cred", m]] * 2       # token + metadata (+ attestation) through the manager, one call
         cands += [["reopen", "id"], ["reopen", "wallet"]]
         if in_batch:
             # a block is left before the database is re-opened; blobs live in the other database
@@ -701,7 +743,13 @@ def build(raw: dict) -> dict:
             ops.append(["batch_end", idx])
             in_batch = False
             continue
-        if kind == "token":
+        if kind == "cred":
+            tok = metas[idx][0]
+            ops.append(["cred", tok, var & 1, idx, [var % 3] if var & 4 else []])
+            placed_tok.add(tok)
+            placed_meta.add(idx)
+            placed.add(("meta", idx))
+        elif kind == "token":
             ops.append(["token", idx, var & 1])
             placed_tok.add(idx)
         elif kind == "meta":
@@ -732,7 +780,9 @@ def build(raw: dict) -> dict:
         elif db not in seen:
             api, sql = api + 4, sql + 19
             seen.add(db)
-        if op[0] not in ("reopen", "batch_begin", "batch_end"):
+        if op[0] == "cred":
+            api, sql = api + 8, sql + 14
+        elif op[0] not in ("reopen", "batch_begin", "batch_end"):
             api, sql = api + 2, sql + 3
     span = 2 * api + 2 if mode == "api" else sql + 2
     # Hypothesis prefers small integers; a fixed permutation of 0..999 spreads them over the whole workload
